@@ -389,6 +389,26 @@ def _S(name: str):  # type: ignore[no-untyped-def]
     return InvocationStatus(name)
 
 
+def graceful_stop_at_the_wrong_moment(ctx: Ctx) -> None:
+    """not a crash but a GRACEFUL stop (Ctrl-C / SIGTERM handled by the runner) that arrives right after the loop popped a message and
+    before it claimed the invocation: with a surviving runner and the recovery services the accepted invocation is completed"""
+    from harness.props.c11 import main_thread_signals
+
+    for d in main_thread_signals(ctx, for_prop="C03"):
+        if not d["mode"].endswith("after-pop"):
+            continue
+        ctx.count()
+        ctx.distinct(("graceful-stop-after-pop", d["mode"], d.get("final_status")))
+        if "crashed" in d:
+            ctx.obligation("the graceful-stop probe of C03 ran", False, str(d)[:300])
+            continue
+        if d.get("final_status") not in ("success", "failed"):
+            ctx.report(f"graceful-stop:{d['mode']}:invocation-stranded",
+                       f"a ThreadRunner (loop in the main thread) handles {d['mode'].split('-')[0].upper()} right after popping the message of an accepted invocation: after its stop the "
+                       f"invocation is {d.get('status_after_stop')} (owner {d.get('owner_after_stop')}, queued {d.get('queued_after_stop')}x); with a surviving runner and both recovery tasks it "
+                       f"ends {d.get('final_status')}: stranded", {"role": "graceful-stop", "mode": d["mode"], "result": d})
+
+
 def worker_loop_consumption(ctx: Ctx) -> None:
     """fault-free: the REAL worker loop of the persistent-process runner consumes a queue holding a concurrency-blocked invocation
     followed by a runnable one; once the blocking invocation finishes, the blocked one must still complete (nothing may be left
@@ -614,6 +634,7 @@ def run(ctx: Ctx) -> None:
                                         "status_at_second_crash": r["pre_status2"], "queued": r["queued2"], "final_status": r["final"]})
                         k2 += 1
         recovery_run_is_the_victim(ctx, clock)
+        graceful_stop_at_the_wrong_moment(ctx)
         worker_loop_consumption(ctx)
         ctx.obligation(f"crash-point table: Lean classification == outcome of the real crash replay on Mem and SQLite ({points} points)", nd == 0, f"{nd} disagreements")
     finally:
